@@ -24,6 +24,7 @@ type c04Scenario struct {
 	rc     string
 	multi  string
 	name   string
+	hist   []string // history entries (autosuggest stays off unless rc turns it on)
 }
 
 func c04PromptWidth(p string) int {
@@ -209,18 +210,19 @@ func runC04(c *Ctx) {
 	utf := "set convert-meta off\nset input-meta on\nset output-meta on\n"
 	binds := "\"\\C-x\\C-]t\": tab-insert\n\"\\C-x\\C-]p\": previous-screen-line\n\"\\C-x\\C-]n\": next-screen-line\n"
 	scen := []c04Scenario{
-		{8, 24, "> ", "", "never", "W8/prompt2"},
-		{11, 24, "", "", "never", "W11/no-prompt"},
-		{20, 24, "abcd$", "", "never", "W20/prompt5"},
-		{8, 24, "\x1b[32m$\x1b[0m ", "", "never", "W8/coloured-prompt"},
-		{11, 24, "top\n$ ", "", "never", "W11/two-line-prompt"},
-		{8, 24, "1234567", "", "never", "W8/prompt-W-1"},
+		{8, 24, "> ", "", "never", "W8/prompt2", nil},
+		{11, 24, "", "", "never", "W11/no-prompt", nil},
+		{20, 24, "abcd$", "", "never", "W20/prompt5", nil},
+		{8, 24, "\x1b[32m$\x1b[0m ", "", "never", "W8/coloured-prompt", nil},
+		{11, 24, "top\n$ ", "", "never", "W11/two-line-prompt", nil},
+		{8, 24, "1234567", "", "never", "W8/prompt-W-1", nil},
+		{w: 8, h: 24, prompt: "> ", multi: "never", name: "W8/history-entry-longer-than-a-row", hist: []string{"aaaaaaaaaaaaaaaa", "ax\nyy"}},
 	}
 	if !quick {
 		scen = append(scen,
-			c04Scenario{8, 6, "> ", "", "never", "W8xH6/scrolling"},
-			c04Scenario{11, 24, "> ", "set multiline-column-numbered on\n", "never", "W11/multiline-column-numbered"},
-			c04Scenario{20, 24, "> ", "set history-autosuggest on\n", "never", "W20/autosuggest"},
+			c04Scenario{8, 6, "> ", "", "never", "W8xH6/scrolling", nil},
+			c04Scenario{11, 24, "> ", "set multiline-column-numbered on\n", "never", "W11/multiline-column-numbered", nil},
+			c04Scenario{20, 24, "> ", "set history-autosuggest on\n", "never", "W20/autosuggest", nil},
 		)
 	}
 	c.Rule = "explicit-state BFS (state = reflective dump of *Shell + emulator grid + cursor) over insert a / wide glyph / combining mark / TAB / newline / pastes of W-1, W, W+1 glyphs / backward-delete-char / kill-line / unix-line-discard / backward-char / forward-char / beginning- and end-of-line / previous- and next-screen-line / clear-screen / transpose-chars, on narrow terminals with several prompts; the screen oracle is evaluated at every main-loop wait against an independent reference renderer. non-trivial = distinct states reached"
@@ -251,6 +253,13 @@ func runC04(c *Ctx) {
 			}
 		}
 		cfg := harness.Config{RC: utf + binds + sc.rc, W: sc.w, H: sc.h, Prompt: sc.prompt, Multiline: sc.multi, NoHist: true}
+		// the prompt starts on row 3: a display that creeps upwards is visible (on the top row the
+		// terminal would clamp the cursor and hide it)
+		cfg.PreOutput = "earlier\r\noutput\r\n\r\n"
+		if sc.hist != nil {
+			cfg.NoHist = false
+			cfg.Hist = []harness.HistSpec{{Kind: "default", Lines: sc.hist}}
+		}
 		if strings.Contains(sc.rc, "autosuggest") {
 			cfg.NoHist = false
 			cfg.Hist = []harness.HistSpec{{Kind: "default", Lines: []string{"aaa bbb ccc ddd eee"}}}
